@@ -563,6 +563,11 @@ def classify(case, wants, got, msg):
             return "if-range:bad-date-raises"
         return "raises:" + got.name
     code = got[0].split(" ", 1)[0]
+    # the one recorded departure (theorem carve-out `suffix_within`): a suffix longer than a NON-EMPTY body, on a request
+    # whose range would otherwise be served, is answered 416 — whatever the stage / configuration / body object
+    if code == "416" and form is not None and form[0] == "s" and form[1] > L > 0 \
+            and ref_eval(dict(case, iter="list"))[0][0] == "206":
+        return "range:suffix-longer-than-body-416"
     if want == "304":
         if code != "304":
             if case.get("inm") == "*":
@@ -1555,6 +1560,10 @@ def replay(ctx, path):
             r = fileapp_history(tmp, case)
     else:
         r = oracle_case(case)
+    if r and ("C06", r[0]) in ctx.known:
+        print("KNOWN-FINDING: property=C06 %s [%s]" % (ctx.known[("C06", r[0])], r[0]))
+        print("  %s" % r[1])
+        return 0
     if r:
         print("VIOLATION property=C06 replay=%s" % path)
         print("  (%s) %s" % r)
